@@ -2,6 +2,7 @@
 //! 
 //! Defines all Redis-compatible data types and their operations.
 
+use crate::storage::commands::RedisInt;
 use std::collections::{HashMap, HashSet, VecDeque};
 use std::time::{Instant, Duration};
 use std::sync::Arc;
@@ -107,7 +108,7 @@ impl Value {
             Value::String(bytes) => {
                 std::str::from_utf8(bytes)
                     .ok()?
-                    .parse::<i64>()
+                    .parse_redis::<i64>()
                     .ok()
             }
             _ => None,
